@@ -64,6 +64,7 @@ func c10PrefixKeys(d *sim.Disk) string {
 func c10Run(t *testing.T, s *sim.Scn) *sim.Outcome {
 	o := sim.NewOutcome()
 	ctx := context.Background()
+	sim.QuietLogs()
 	logger := logging.Logger("verif")
 	bound := int(s.Cfg["bound"])
 	if bound < 1 {
